@@ -100,6 +100,56 @@ func genLogSites() {
 		fmt.Fprintf(&b, "  (%s, %s, %s, %s, %s)%s\n", strconv.Quote(s.file), strconv.Quote(s.fn), strconv.Quote(s.kind), strconv.Quote(callee), qs(s.args), sep)
 	}
 	b.WriteString("]\n\n")
+	// the same table reduced to what a run-time secret could travel in: per site the arguments that are NOT string literals (a literal is program text), and
+	// for log sites whose format literal contains %v / %+v the values it formats. (Deciding "is a literal" here keeps thousands of characters of format
+	// strings out of the kernel's string evaluation, which is slow; the classification is purely syntactic: ast.BasicLit of kind STRING.)
+	isLit := func(a string) bool { return strings.HasPrefix(a, "\"") || strings.HasPrefix(a, "`") }
+	b.WriteString("def nonLiteralArgs : List (List String) := [\n")
+	for i, s := range sites {
+		var nl []string
+		for _, a := range s.args {
+			if !isLit(a) {
+				nl = append(nl, a)
+			}
+		}
+		sep := ","
+		if i == len(sites)-1 {
+			sep = ""
+		}
+		fmt.Fprintf(&b, "  %s%s\n", qs(nl), sep)
+	}
+	b.WriteString("]\n\n")
+	// … and the same arguments as lists of Unicode code points: the kernel compares natural numbers fast, while decoding a string literal costs it
+	// milliseconds per character
+	codes := func(a string) string {
+		var cs []string
+		for _, r := range a {
+			cs = append(cs, strconv.Itoa(int(r)))
+		}
+		return "[" + strings.Join(cs, ", ") + "]"
+	}
+	b.WriteString("def nonLiteralArgCodes : List (List (List Nat)) := [\n")
+	for i, s := range sites {
+		var nl []string
+		for _, a := range s.args {
+			if !isLit(a) {
+				nl = append(nl, codes(a))
+			}
+		}
+		sep := ","
+		if i == len(sites)-1 {
+			sep = ""
+		}
+		fmt.Fprintf(&b, "  [%s]%s\n", strings.Join(nl, ", "), sep)
+	}
+	b.WriteString("]\n\n")
+	var verbArgs []string
+	for _, s := range sites {
+		if s.kind == "log" && len(s.args) > 0 && isLit(s.args[0]) && (strings.Contains(s.args[0], "%+v") || strings.Contains(s.args[0], "%v")) {
+			verbArgs = append(verbArgs, s.args[1:]...)
+		}
+	}
+	fmt.Fprintf(&b, "def verbFormattedArgs : List String := %s\n\n", qs(verbArgs))
 	// the fields masked before the start-up banner is printed
 	cf := parseFile(fset, "pkg/config/config.go")
 	var masked, maskedRhs []string
